@@ -10,6 +10,7 @@ import Geo.Indexing
 import Geo.Arith
 import Geo.Spec.Euclid
 import Geo.Spec.Shapes
+import Geo.Gen.Curve
 open Geo
 
 def absLeQ (a b : Q) : Bool := decide (Gauss.normSq a ≤ Gauss.normSq b)
@@ -296,6 +297,15 @@ def dispatch (op : String) (args : List String) : String :=
       let v := sumRange n fun i => sumRange n fun j => p.getD i 0 * a.get [i, j] * p.getD j 0
       "ok " ++ showQ v
     | _, _ => "bad-op"
+  -- the matrices regenerated from Ellipse.__init__ / Sphere.__init__ (translator A), evaluated exactly
+  | "gen.ellipse", [cx, cy, hr, vr] => match parseQ cx, parseQ cy, parseQ hr, parseQ vr with
+    | some cx, some cy, some hr, some vr =>
+      "ok " ++ showTens ⟨[3, 3], ((List.range 3).flatMap fun i => (List.range 3).map fun j => Gen.ellipse_m cx cy hr vr i j).toArray⟩
+    | _, _, _, _ => "bad-op"
+  | "gen.sphere", [c0, c1, c2, r] => match parseQ c0, parseQ c1, parseQ c2, parseQ r with
+    | some c0, some c1, some c2, some r =>
+      "ok " ++ showTens ⟨[4, 4], ((List.range 4).flatMap fun i => (List.range 4).map fun j => Gen.sphere_m c0 c1 c2 r i j).toArray⟩
+    | _, _, _, _ => "bad-op"
   | "ixmap", r :: comps => match r.toNat?, comps.mapM parseIx with
     | some r, some cs => showMapping (indexMapping r cs)
     | _, _ => "bad-op"
